@@ -83,3 +83,11 @@ Proof.
   destruct (run (init (Until false)) ex_race) as [s|] eqn:E; [|vm_compute in E; discriminate].
   exists s. split; [eapply reachable_of_run; eauto|]. vm_compute in E. inversion E. auto.
 Qed.
+
+(** (A) the tie to /repo's current source: every function this property's models were transcribed from has, in the
+    tree this run is checking, the normalised source it had when the models were validated (hashes regenerated from
+    /repo into gen/Generated.v on every run; pins in gen/SourcePins.v).  A change to one of them invalidates the
+    transcription until it is re-validated. *)
+From UsimGen Require SourcePins Pin_C07.
+Theorem C07_modelled_source_unchanged : forallb SourcePins.pin_ok Pin_C07.pins = true.
+Proof. exact Pin_C07.src_unchanged. Qed.
